@@ -174,27 +174,27 @@ def primaryRewardOfNext (P : Params) (e : EpochExt) : Option Nat := do
 
 /-! ## `RationalU256` -/
 
-structure Rat where
+structure URat where
   n : Nat
   d : Nat
   deriving Repr, DecidableEq
 
-namespace Rat
+namespace URat
 
 @[inline] def umul (a b : Nat) : Option Nat := chk256 (a * b)
 @[inline] def uadd (a b : Nat) : Option Nat := chk256 (a + b)
 
 /-- `RationalU256::new`: panics on a zero denominator, reduces -/
-def new (n d : Nat) : Option Rat :=
+def new (n d : Nat) : Option URat :=
   if d = 0 then none else
     let g := Nat.gcd n d
     some ⟨n / g, d / g⟩
 
-def one : Rat := ⟨1, 1⟩
-def zero : Rat := ⟨0, 1⟩
+def one : URat := ⟨1, 1⟩
+def zero : URat := ⟨0, 1⟩
 
 /-- `Mul<&RationalU256> for &RationalU256` -/
-def mul (a b : Rat) : Option Rat := do
+def mul (a b : URat) : Option URat := do
   let gad := Nat.gcd a.n b.d
   let gbc := Nat.gcd a.d b.n
   let n ← umul (← divChk a.n gad) (← divChk b.n gbc)
@@ -202,14 +202,14 @@ def mul (a b : Rat) : Option Rat := do
   some ⟨n, d⟩
 
 /-- `Mul<&U256> for &RationalU256` -/
-def mulU (a : Rat) (u : Nat) : Option Rat := do
+def mulU (a : URat) (u : Nat) : Option URat := do
   let g := Nat.gcd a.d u
   let n ← umul a.n (← divChk u g)
   let d ← divChk a.d g
   some ⟨n, d⟩
 
 /-- `Div<&RationalU256> for &RationalU256` -/
-def div (a b : Rat) : Option Rat := do
+def div (a b : URat) : Option URat := do
   let gac := Nat.gcd a.n b.n
   let gbd := Nat.gcd a.d b.d
   let n ← umul (← divChk a.n gac) (← divChk b.d gbd)
@@ -217,31 +217,31 @@ def div (a b : Rat) : Option Rat := do
   some ⟨n, d⟩
 
 /-- `Add<&U256> for &RationalU256` -/
-def addU (a : Rat) (u : Nat) : Option Rat := do
+def addU (a : URat) (u : Nat) : Option URat := do
   let n ← uadd a.n (← umul a.d u)
   some ⟨n, a.d⟩
 
 /-- `saturating_sub_u256` -/
-def satSubU (a : Rat) (u : Nat) : Option Rat := do
+def satSubU (a : URat) (u : Nat) : Option URat := do
   let t ← umul a.d u
   if a.n < t then some zero else some ⟨a.n - t, a.d⟩
 
 /-- `into_u256` -/
-def floor (a : Rat) : Option Nat := divChk a.n a.d
+def floor (a : URat) : Option Nat := divChk a.n a.d
 
 /-- `Ord::cmp(a, b) == Greater` -/
-def gt (a b : Rat) : Option Bool := do
+def gt (a b : URat) : Option Bool := do
   let g := Nat.gcd a.d b.d
   let lhs ← umul a.n (← divChk b.d g)
   let rhs ← umul b.n (← divChk a.d g)
   some (decide (lhs > rhs))
 
-end Rat
+end URat
 
 /-! ## `Consensus::next_epoch_ext` -/
 
 /-- `Consensus::orphan_rate_target()` -/
-def Params.ort (P : Params) : Rat := ⟨P.ortN, P.ortD⟩
+def Params.ort (P : Params) : URat := ⟨P.ortN, P.ortD⟩
 
 /-- `bounding_hash_rate` -/
 def boundingHashRate (hr prev : Nat) : Option Nat :=
@@ -276,7 +276,7 @@ def boundingEpochLength (len L : Nat) : Option (Nat × Bool) := do
   else some (len, false)
 
 /-- the unbounded length estimate `numerator / denominator` as a rational -/
-def rawLengthRat (ort : Rat) (T L dur : Nat) (lor : Rat) : Option Rat := do
+def rawLengthRat (ort : URat) (T L dur : Nat) (lor : URat) : Option URat := do
   let a ← lor.addU 1
   let n1 ← ort.mul a
   let n2 ← n1.mulU T
@@ -287,7 +287,7 @@ def rawLengthRat (ort : Rat) (T L dur : Nat) (lor : Rat) : Option Rat := do
   num.div den
 
 /-- step (2): `(next_epoch_length, bound)` -/
-def nextLength (ort : Rat) (T L uncles dur : Nat) (lor : Rat) : Option (Nat × Bool) :=
+def nextLength (ort : URat) (T L uncles dur : Nat) (lor : URat) : Option (Nat × Bool) :=
   if uncles = 0 then do
     let l2 ← chk64 (L * TAU)
     some (min MAX_EPOCH_LENGTH l2, true)
@@ -297,12 +297,12 @@ def nextLength (ort : Rat) (T L uncles dur : Nat) (lor : Rat) : Option (Nat × B
     boundingEpochLength (raw % U64) L
 
 /-- `(o_ideal + 1) * next_epoch_length` -/
-def idealDenominator (ort : Rat) (L' : Nat) : Option Rat := do
+def idealDenominator (ort : URat) (L' : Nat) : Option URat := do
   let c ← ort.addU 1
   c.mulU L'
 
 /-- `orphan_rate_estimation_recip` -/
-def estimationRecip (T L dur L' : Nat) (lor : Rat) : Option Rat := do
+def estimationRecip (T L dur L' : Nat) (lor : URat) : Option URat := do
   let a ← lor.addU 1
   let a ← a.mulU T
   let a ← a.mulU L
@@ -312,23 +312,23 @@ def estimationRecip (T L dur L' : Nat) (lor : Rat) : Option Rat := do
   q.satSubU 1
 
 /-- step (3a): `diff_denominator` -/
-def diffDenominator (ort : Rat) (T L dur L' : Nat) (bound : Bool) (lor : Rat) : Option Rat :=
+def diffDenominator (ort : URat) (T L dur L' : Nat) (bound : Bool) (lor : URat) : Option URat :=
   if bound then
-    if lor.n = 0 then Rat.new L' 1
+    if lor.n = 0 then URat.new L' 1
     else do
       let recip ← estimationRecip T L dur L' lor
       if recip.n = 0 then idealDenominator ort L'
       else do
-        let est ← Rat.one.div recip
+        let est ← URat.one.div recip
         let c ← est.addU 1
         c.mulU L'
   else idealDenominator ort L'
 
 /-- step (3b): `next_epoch_diff` -/
-def nextDiff (adj T : Nat) (den : Rat) : Option Nat := do
+def nextDiff (adj T : Nat) (den : URat) : Option Nat := do
   let x ← chk256 (adj * T)
-  let num ← Rat.new x 1
-  if (← Rat.gt num den) then do
+  let num ← URat.new x 1
+  if (← URat.gt num den) then do
     let q ← num.div den
     q.floor
   else some 1
@@ -340,7 +340,7 @@ def nextEpochExt (P : Params) (e : EpochExt) (hdrNumber hdrCompact uncles durMs 
   let diff := compactToDifficulty hdrCompact
   let dur := durationSecs durMs
   let adj ← adjustedHashRate diff e.length uncles dur e.prevHR
-  let lor ← Rat.new uncles e.length
+  let lor ← URat.new uncles e.length
   let (L', bound) ← nextLength P.ort P.T e.length uncles dur lor
   let den ← diffDenominator P.ort P.T e.length dur L' bound lor
   let nd ← nextDiff adj P.T den
